@@ -1256,7 +1256,7 @@ func runC12(r *Run, rng *Rng, replay string) {
 	thorough := r.Tier == "thorough"
 	nGen, nLim, deepEvery := 22, 4, 4
 	if thorough {
-		nGen, nLim, deepEvery = 160, 8, 3
+		nGen, nLim, deepEvery = 110, 8, 3
 	}
 	var ids []string
 	// deterministic witnesses first
